@@ -27,8 +27,8 @@ inductive Ev where
   | connect (a : Answer)
   | api (call : Api)
   | peer (p : Packet)
-  /-- the acknowledgement `ack` reaches the client and is processed after the request of `call`
-  was written but before the call registered it in its ack queue -/
+  /-- the acknowledgement `ack` reaches the client after the request of `call` was written but
+  before the call has registered it in its ack queue -/
   | apiEarlyAck (call : Api) (ack : Packet)
 deriving Repr
 
